@@ -494,6 +494,9 @@ void FastGaussianNoise<in_class, out_class, _lu_depth>::getNoise(out_class* cons
     innoise_multiplier = 1.05 * ((float)(_lu_size - _flag_ctr1)/(float)_lu_size) + 2.0 * ((float)_flag_ctr1/(float)_lu_size) + _word_precision * ((float)_flag_ctr2/((float)_lu_size*_lu_size));
   }
   innoise_words = rlen * innoise_multiplier;
+  // A flagged entry is compared with the barriers over _word_precision words:
+  // the buffer must hold at least one full comparison
+  if (innoise_words < _word_precision) innoise_words = _word_precision;
   innoise_bytesize = sizeof(in_class) * innoise_words;
 	noise = noise_init_ptr = new in_class[innoise_words];
   used_words = 0;
